@@ -593,6 +593,14 @@ type EvState struct {
 	Must     strset
 	Max      map[string]int
 	Deferred strset
+	// Pending: `..., ok := helper()` with a boolean last result: the helper's events per outcome, applied when the
+	// variable is tested (until then the helper's events count as possible, not as certain)
+	Pending map[string]*pendEvents
+}
+
+type pendEvents struct {
+	whenTrue, whenFalse *evSummary
+	applied            map[string]int // what was already added to Max at the call (the larger outcome)
 }
 
 // Classifier maps a step to the events it performs (in order).
@@ -728,8 +736,9 @@ func (g *Graph) calleeSummaryWhen(cl Classifier, fi *FuncInfo, val bool, depth i
 		if e.Kind == ExitPanic {
 			continue
 		}
-		if rs, ok := e.Node.(*ast.ReturnStmt); ok && len(rs.Results) == 1 {
-			if tv, has := cg.Info.Types[rs.Results[0]]; has && tv.Value != nil && tv.Value.Kind() == constant.Bool && constant.BoolVal(tv.Value) != val {
+		if rs, ok := e.Node.(*ast.ReturnStmt); ok && len(rs.Results) >= 1 {
+			last := rs.Results[len(rs.Results)-1]
+			if tv, has := cg.Info.Types[last]; has && tv.Value != nil && tv.Value.Kind() == constant.Bool && constant.BoolVal(tv.Value) != val {
 				continue
 			}
 		}
@@ -766,6 +775,9 @@ func (g *Graph) eventsAt(cl Classifier, depth int, cache map[*FuncInfo]*evSummar
 		}
 		if callee, _ := g.condCallee(n); callee != nil && g.isBranchCond(n) {
 			return nil, nil // attributed per outcome on the branch edges
+		}
+		if _, callee := g.okHelperAssign(n); callee != nil && depth < 2 {
+			return nil, nil // attributed when the ok variable is tested
 		}
 		inspectNoLit(n, func(x ast.Node) bool {
 			c, ok := x.(*ast.CallExpr)
@@ -816,11 +828,25 @@ func (g *Graph) eventsAt(cl Classifier, depth int, cache map[*FuncInfo]*evSummar
 					mx[k] = v
 				}
 			}
-			return EvState{Must: a.Must.intersect(b.Must), Max: mx, Deferred: a.Deferred.intersect(b.Deferred)}
+			var pend map[string]*pendEvents
+			for k, v := range a.Pending {
+				if b.Pending[k] == v {
+					if pend == nil {
+						pend = map[string]*pendEvents{}
+					}
+					pend[k] = v
+				}
+			}
+			return EvState{Must: a.Must.intersect(b.Must), Max: mx, Deferred: a.Deferred.intersect(b.Deferred), Pending: pend}
 		},
 		Eq: func(a, b EvState) bool {
-			if !a.Must.eq(b.Must) || !a.Deferred.eq(b.Deferred) || len(a.Max) != len(b.Max) {
+			if !a.Must.eq(b.Must) || !a.Deferred.eq(b.Deferred) || len(a.Max) != len(b.Max) || len(a.Pending) != len(b.Pending) {
 				return false
+			}
+			for k, v := range a.Pending {
+				if b.Pending[k] != v {
+					return false
+				}
 			}
 			for k, v := range a.Max {
 				if b.Max[k] != v {
@@ -832,6 +858,100 @@ func (g *Graph) eventsAt(cl Classifier, depth int, cache map[*FuncInfo]*evSummar
 		Step: func(s EvState, st Step) EvState {
 			evs := cl(st)
 			var may map[string]int
+			// a variable holding a pending outcome is re-assigned: forget it
+			if st.Kind == StNode && len(s.Pending) > 0 {
+				for _, l := range assignedLHS(st.Node) {
+					if id, ok := l.(*ast.Ident); ok && s.Pending[id.Name] != nil {
+						np := map[string]*pendEvents{}
+						for k, v := range s.Pending {
+							if k != id.Name {
+								np[k] = v
+							}
+						}
+						s = EvState{Must: s.Must, Max: s.Max, Deferred: s.Deferred, Pending: np}
+					}
+				}
+			}
+			if st.Kind == StNode && depth < 2 {
+				if okName, callee := g.okHelperAssign(st.Node); callee != nil {
+					// events of the helper are attributed when ok is tested; until then they are possible
+					pt := g.calleeSummaryWhen(cl, callee, true, depth, cache)
+					pf := g.calleeSummaryWhen(cl, callee, false, depth, cache)
+					if pt != nil && pf != nil {
+						pe := &pendEvents{whenTrue: pt, whenFalse: pf, applied: map[string]int{}}
+						mx := copyMax(s.Max)
+						for _, sum := range []*evSummary{pt, pf} {
+							for e, k := range sum.max {
+								if k > pe.applied[e] {
+									pe.applied[e] = k
+								}
+							}
+						}
+						for e, k := range pe.applied {
+							mx[e] += k
+							if mx[e] > 2 {
+								mx[e] = 2
+							}
+						}
+						np := map[string]*pendEvents{}
+						for k, v := range s.Pending {
+							np[k] = v
+						}
+						if okName != "_" {
+							np[okName] = pe
+						}
+						// events certain on both outcomes are certain now
+						must := s.Must
+						for e := range pt.must {
+							if pf.must[e] {
+								must = must.with(e)
+							}
+						}
+						s = EvState{Must: must, Max: mx, Deferred: s.Deferred, Pending: np}
+						evs = cl(st)
+						if len(evs) == 0 {
+							return s
+						}
+						must2, mx2 := s.Must, copyMax(s.Max)
+						for _, e := range evs {
+							must2 = must2.with(e)
+							if mx2[e] < 2 {
+								mx2[e]++
+							}
+						}
+						return EvState{Must: must2, Max: mx2, Deferred: s.Deferred, Pending: s.Pending}
+					}
+				}
+			}
+			if st.Kind == StCond && len(s.Pending) > 0 {
+				ce, val := ast.Unparen(st.Node.(ast.Expr)), st.Val
+				for {
+					if u, ok := ce.(*ast.UnaryExpr); ok && u.Op == token.NOT {
+						ce, val = ast.Unparen(u.X), !val
+						continue
+					}
+					break
+				}
+				if id, ok := ce.(*ast.Ident); ok {
+					if pe := s.Pending[id.Name]; pe != nil {
+						sum := pe.whenFalse
+						if val {
+							sum = pe.whenTrue
+						}
+						must, mx := s.Must, copyMax(s.Max)
+						for e := range sum.must {
+							must = must.with(e)
+						}
+						// the outcome is known: the possible count is this outcome's, not the larger one
+						for e, k := range pe.applied {
+							if d := k - sum.max[e]; d > 0 && mx[e] >= d {
+								mx[e] -= d
+							}
+						}
+						s = EvState{Must: must, Max: mx, Deferred: s.Deferred, Pending: s.Pending}
+					}
+				}
+			}
 			if st.Kind == StNode {
 				m, y := calleeEvents(st.Node)
 				evs = append(evs, m...)
@@ -872,7 +992,7 @@ func (g *Graph) eventsAt(cl Classifier, depth int, cache map[*FuncInfo]*evSummar
 						mx[e] = 2
 					}
 				}
-				s = EvState{Must: s.Must, Max: mx, Deferred: s.Deferred}
+				s = EvState{Must: s.Must, Max: mx, Deferred: s.Deferred, Pending: s.Pending}
 				if len(evs) == 0 {
 					return s
 				}
@@ -883,7 +1003,7 @@ func (g *Graph) eventsAt(cl Classifier, depth int, cache map[*FuncInfo]*evSummar
 					for _, e := range evs {
 						d = d.with(e)
 					}
-					return EvState{Must: s.Must, Max: s.Max, Deferred: d}
+					return EvState{Must: s.Must, Max: s.Max, Deferred: d, Pending: s.Pending}
 				}
 			}
 			must, mx := s.Must, copyMax(s.Max)
@@ -893,7 +1013,7 @@ func (g *Graph) eventsAt(cl Classifier, depth int, cache map[*FuncInfo]*evSummar
 					mx[e]++
 				}
 			}
-			return EvState{Must: must, Max: mx, Deferred: s.Deferred}
+			return EvState{Must: must, Max: mx, Deferred: s.Deferred, Pending: s.Pending}
 		},
 	}
 	return &EventFlow{Sol: Solve(g, l), g: g}
@@ -995,4 +1115,42 @@ func (g *Graph) isBranchCond(n ast.Node) bool {
 		}
 	}
 	return false
+}
+
+// okHelperAssign: n is `..., ok := helper(args)` / `=` where helper is a function of this package with a body whose
+// last result is a bool and ok is an identifier: returns ok's name and the helper.
+func (g *Graph) okHelperAssign(n ast.Node) (string, *FuncInfo) {
+	as, isAs := n.(*ast.AssignStmt)
+	if !isAs || len(as.Rhs) != 1 || len(as.Lhs) < 2 || g.Fi == nil {
+		return "", nil
+	}
+	c, isCall := ast.Unparen(as.Rhs[0]).(*ast.CallExpr)
+	if !isCall {
+		return "", nil
+	}
+	fn := calleeOf(g.Info, c)
+	if fn == nil {
+		return "", nil
+	}
+	callee := g.P.FuncOf(fn)
+	if callee == nil || callee == g.Fi || callee.Decl.Body == nil || callee.Pkg != g.Fi.Pkg {
+		return "", nil
+	}
+	sig := fn.Type().(*types.Signature)
+	if sig.Results().Len() != len(as.Lhs) {
+		return "", nil
+	}
+	if b, isB := sig.Results().At(sig.Results().Len()-1).Type().Underlying().(*types.Basic); !isB || b.Kind() != types.Bool {
+		return "", nil
+	}
+	id, isId := as.Lhs[len(as.Lhs)-1].(*ast.Ident)
+	if !isId {
+		return "", nil
+	}
+	for _, a := range c.Args {
+		if len(callsIn(a)) > 0 {
+			return "", nil
+		}
+	}
+	return id.Name, callee
 }
